@@ -483,6 +483,11 @@ func genBCase(t *rapid.T) BCase {
 		if rapid.Bool().Draw(t, "lo-straddle") {
 			lo = max(0, rapid.SampledFrom([]int{64, 16384}).Draw(t, "boundary")-rapid.IntRange(0, c.L).Draw(t, "below"))
 		}
+		if ood {
+			// QUICFrames.build looks for the lowest offset below math.MaxUint16 only
+			c.OOD = "passthrough-offset>=65535"
+			lo = 65535 + rapid.IntRange(0, 70000).Draw(t, "hi-lo")
+		}
 		c.Base = uint64(lo)
 		cuts := sortedCuts(t, rapid.SampledFrom([]int{0, 1, 2, 3, 7}).Draw(t, "npieces"), 1, c.L-1, "piececut")
 		prev := 0
@@ -606,8 +611,8 @@ var (
 // ---------------------------------------------------------------------------------------
 
 type obs struct {
-	owid, lwid [9]bool // encoded varint widths seen for CRYPTO offsets / lengths
-	ncrypto    int
+	owid, lwid  [9]bool // encoded varint widths seen for CRYPTO offsets / lengths
+	ncrypto     int
 	npad, nping int
 }
 
@@ -1024,6 +1029,12 @@ func checkOOD(c BCase, data []byte, u *vf.Unit) *vf.Verdict {
 		out = guard(func() ([]byte, error) { return qf.BuildForDatagram(0, slice, c.Base) })
 		if out.pan == nil && out.err == nil {
 			v = checkPayload("frames", out.payload, slice, c.Base, whole(len(slice)), &o)
+		}
+	case "passthrough-offset>=65535":
+		qf := mkFrames(c.Layout)
+		out = guard(func() ([]byte, error) { return qf.Build(data) })
+		if out.pan == nil && out.err == nil {
+			v = checkPayload("frames", out.payload, data, c.Base, whole(len(data)), &o)
 		}
 	case "neg-idx":
 		m := &quic.QUICMultiDatagramFrames{}
